@@ -12,6 +12,8 @@
 (* launches the goroutine at the caller's first Match.                      *)
 EXTENDS MC_Faults, Json
 
+CONSTANT Reduce   \* TRUE: partial-order reduction for exhaustive enumeration (see LocalPending)
+
 VARIABLE hist
 gvars == <<desc, count, list, pc, call, prunes, fired, hits, avail, expired, clock, startAt, endAt, hist>>
 
@@ -22,15 +24,29 @@ GenInit ==
   /\ \E ds \in InitChoices, cls \in CallChoices : InitWith(ds, cls, "Start")
   /\ hist = <<>>
 
+\* Pass, Decide and Finish touch nothing another caller reads (Decide and
+\* Finish only write the ghost `fired` and schedule a prune): they commute
+\* with every step of the others.  With Reduce a caller that has such a step
+\* pending takes it at once, so the enumeration is over the orders of Match,
+\* Dec, Prune and Add only.  (Gen_Faults2 enumerates WITHOUT the reduction.)
+LocalPending == {c \in Callers : pc[c].st \in {"Decremented", "Fired"}
+                                  \/ (pc[c].st = "Matched" /\ pc[c].d = 0)}
+MayMove(c) == IF Reduce /\ LocalPending # {}
+              THEN c = (CHOOSE x \in LocalPending : \A y \in LocalPending : x <= y)
+              ELSE TRUE
+
+CallerGen(c) ==
+  \/ Match(c) /\ hist' = Append(hist, CStep(c, "Match"))
+  \/ Pass(c) /\ hist' = Append(hist, CStep(c, "Pass"))
+  \/ Dec(c) /\ hist' = Append(hist, CStep(c, "Dec"))
+  \/ Decide(c) /\ hist' = Append(hist, CStep(c, "Decide"))
+  \/ Finish(c) /\ hist' = Append(hist, CStep(c, "Finish"))
+
 GenStep ==
-  \/ \E c \in Callers :
-       \/ Match(c) /\ hist' = Append(hist, CStep(c, "Match"))
-       \/ Pass(c) /\ hist' = Append(hist, CStep(c, "Pass"))
-       \/ Dec(c) /\ hist' = Append(hist, CStep(c, "Dec"))
-       \/ Decide(c) /\ hist' = Append(hist, CStep(c, "Decide"))
-       \/ Finish(c) /\ hist' = Append(hist, CStep(c, "Finish"))
-  \/ Prune /\ hist' = Append(hist, [c |-> 0, s |-> "Prune", expired |-> expired', cur |-> Listing'])
+  \/ \E c \in Callers : MayMove(c) /\ CallerGen(c)
+  \/ (~Reduce \/ LocalPending = {}) /\ Prune /\ hist' = Append(hist, [c |-> 0, s |-> "Prune", expired |-> expired', cur |-> Listing'])
   \/ \E dsc \in LatePool :
+       /\ (~Reduce \/ LocalPending = {})
        /\ \A i \in Ids : desc[i].tag # dsc.tag
        /\ Add(dsc)
        /\ hist' = Append(hist, [c |-> 0, s |-> "Add", desc |-> dsc, cur |-> Listing'])
